@@ -2,7 +2,7 @@
   Props/C18.lean — parallel encoding is schedule-independent.
 -/
 import FlacModel.Model.Par
-import FlacModel.Gen.Kernels
+import FlacModel.Gen.KernelsEnc
 import FlacModel.Gen.Par
 
 namespace Flac.C18
